@@ -35,7 +35,7 @@ def gen_cases(tier, seed):
     for i in range(nh):
         fam = FAMS[i % len(FAMS)]
         c = dict(family=fam, mode=str(rng.choice(["SEP", "NPOL", "POL"], p=[0.6, 0.2, 0.2])),
-                 evaluator=str(rng.choice(["rbf", "kernel", "linear"], p=[0.6, 0.2, 0.2])),
+                 evaluator=str(rng.choice(["rbf", "kernel", "linear", "subrbf"], p=[0.45, 0.2, 0.15, 0.2])),
                  mix=str(rng.choice(["pure", "xmix"])), basis=str(rng.choice(["6-31g", "sto-3g"])),
                  level=int(rng.integers(0, 2)), model="xc1")
         if fam in NLDF:
@@ -210,7 +210,7 @@ def _chunk(case, rec, rng):
     """Evaluator chunking: per-sample results independent of the number of samples in the call."""
     from vlib import gen
     mode = ["SEP", "NPOL", "POL"][case["idx"] % 3]
-    ev = str(rng.choice(["kernel", "rbf", "linear", "rbf+kernel"]))
+    ev = str(rng.choice(["kernel", "rbf", "linear", "rbf+kernel", "subrbf", "subrbf+linear"]))
     fam = str(rng.choice(["sl-npa", "vj-mgga", "sdmx"]))
     cfg = dict(family=fam, mode=mode, evaluator=ev, model="xc1", nkernels=int(rng.integers(1, 3)))
     model = gen.build_model(cfg, rng)
